@@ -157,6 +157,8 @@ class GM:
                         return c0 + sp.Sum(self.T(parts.elts[1], K - 1), (K, 1, j))
                     raise Unrecognised('cumsum/concatenate shape %s' % unparse(node))
                 if last == 'len':
+                    if len(node.args) == 1 and unparse(node.args[0]) in ('e_content[e_name]', 'self.e_content[e_name]'):
+                        return sp.Symbol('n_replica', integer=True, positive=True)      # number of replicas of the ensemble
                     raise Unrecognised('len in formula')
                 if last in _FUNCS and not node.keywords:
                     return _FUNCS[last](*[self.T(a, j) for a in node.args])
